@@ -388,6 +388,17 @@ def check(ctx, rep):
                 bodies = list(fns)
                 for f in fns:
                     bodies += c.closures_of(f)
+                # ... and the crate-local helpers the equality calls (depth 2), with their closures
+                by_npath = {}
+                for g in c.built:
+                    by_npath.setdefault(g.npath, []).append(g)
+                for _ in range(2):
+                    for f in list(bodies):
+                        for bb, t in f.calls():
+                            for g in by_npath.get(norm(t.get('resolved') or t.get('callee') or ''), []):
+                                if g not in bodies and g.kind in ('Fn', 'AssocFn') and not g.assoc.get('trait'):
+                                    bodies.append(g)
+                                    bodies += [h for h in c.closures_of(g) if h not in bodies]
                 touched = False
                 partial = []
                 for f in bodies:
